@@ -29,6 +29,8 @@ FIXED_MODEL = os.environ.get("C18_MODEL", "fixed") != "upstream"
 # is the FIXED code; C18_RESCALE=upstream / C18_LOWER=upstream compare against the unpatched patterns (diagnostics only)
 FIXED_RESCALE = os.environ.get("C18_RESCALE", "fixed") != "upstream"
 FIXED_LOWER = os.environ.get("C18_LOWER", "fixed") != "upstream"
+# fixes/FD15-dispatch-operand-types.diff is shipped but NOT applied (status open): C18_DISPATCH=fixed compares with its model
+FIXED_DISPATCH = os.environ.get("C18_DISPATCH", "upstream") == "fixed"
 CMPI_PREDS = ["eq", "ne", "slt", "sle", "sgt", "sge", "ult", "ule", "ugt", "uge"]
 WIDTHS = [8, 16, 32, 64]
 BIN = ["addi", "muli", "subi"]
@@ -248,6 +250,10 @@ class BlockView:
             return ["v", self.index[v]]
         if isinstance(v, OpResult) and isinstance(v.op, arith.ConstantOp):
             return ["o", _width(v.type), v.op.value.value.data]
+        if isinstance(v, OpResult) and v.op.name == "test.op" and "val" in v.op.attributes:
+            # an outside value that is NOT a constant op (function argument, loop-carried value ...): the harness fixes the
+            # value it has at run time in an attribute so that the interpreter and the model agree on it
+            return ["o", _width(v.type), v.op.attributes["val"].value.data]
         raise Unsupported("operand defined outside the block is not a constant")
 
     def ret(self):
@@ -915,7 +921,10 @@ def render_generic_item(k, item, indent):
         maps[n - 2] = "affine_map<(d0) -> ()>"
     out = [f'{", ".join(f"%m{i}" for i in range(n))} = "test.op"() : () -> ({", ".join(tys)})']
     for (w, c), name in outer.items():
-        out.append(f"{name} = arith.constant {sgn(w, c)} : i{w}")
+        if item.get("free_outer"):
+            out.append(f'{name} = "test.op"() {{val = {sgn(w, c)} : i{w}}} : () -> i{w}')
+        else:
+            out.append(f"{name} = arith.constant {sgn(w, c)} : i{w}")
     res = "%res = " if form == "tensor" else ""
     out.append(f'{res}linalg.generic {{indexing_maps = [{", ".join(maps)}], iterator_types = ["parallel"]}} '
                f'ins({", ".join(f"%m{i}" for i in range(n - 1))} : {", ".join(tys[:-1])}) outs(%m{n - 1} : {tys[-1]}) {{')
@@ -957,7 +966,7 @@ def gen_multi(rng):
             body = mutate(rng, commute(rng, region_json(k, gen_typed_tys(rng, k))))
         else:
             body = gen_random_body(rng, 4)
-        items.append({"form": rng.choice(FORMS), "in_loop": rng.random() < 0.3, "body": body})
+        items.append({"form": rng.choice(FORMS), "in_loop": rng.random() < 0.3, "body": body, "free_outer": rng.random() < 0.3})
     if rng.random() < 0.5:      # the same body twice in one module (same kernel recognised twice, constants shared by value)
         items.append(dict(items[0], form=rng.choice(FORMS)))
     accs = [a for a in ["snax_alu", "snax_gemmx"] if rng.random() < 0.6]
@@ -1057,6 +1066,8 @@ class C18(Prop):
             yield gen_multi(rng)
         for _ in range(200 if q else 3000):
             yield gen_rescale(rng)
+        for _ in range(40 if q else 600):     # two or three kernel.rescale generics in ONE module (constants are hoisted per op)
+            yield {"kind": "multi_rescale", "items": [gen_rescale(rng) for _ in range(rng.choice([2, 2, 3]))]}
         for _ in range(150 if q else 2500):
             yield gen_tosa(rng)
         for _ in range(10 if q else 100):    # a kernel.rescale whose parent is not a linalg.generic is not lowered
@@ -1088,6 +1099,8 @@ class C18(Prop):
             return self.impl_fused(case)
         if k == "multi":
             return self.impl_multi(case)
+        if k == "multi_rescale":
+            return self.impl_multi_rescale(case)
         if k == "rescale":
             return self.impl_rescale(case)
         if k == "tosa":
@@ -1210,6 +1223,47 @@ class C18(Prop):
         calls = [g.library_call.data if g.library_call is not None else None for g in g3]
         return {"bodies": bodies, "kforms": kforms, "unrecognised_unchanged": same1, "round_trip": round_trip, "calls": calls,
                 "_ins": ins, "_before": before, "_after1": after1, "_after2": after2}
+
+    def impl_multi_rescale(self, case):
+        import numpy as np
+        import snaxrun
+        from snaxc.dialects.kernel import RescaleOp
+        from xdsl.dialects import linalg
+        parts = []
+        for k, it in enumerate(case["items"]):
+            txt = render_rescale_case(it)
+            for pre in ("%m", "%v"):
+                txt = txt.replace(pre, f"%g{k}{pre[1:]}")
+            parts.append(txt)
+        src = "".join(parts)
+        try:
+            mod = parse_checked(src)
+        except Exception as e:
+            return {"invalid_input": type(e).__name__, "msg": str(e)[:200]}
+        omod = snaxrun.parse(snaxrun.run_passes(src, "convert-kernel-to-linalg"))
+        gens = [op for op in omod.walk() if isinstance(op, linalg.GenericOp)]
+        if len(gens) != len(case["items"]):
+            raise Unsupported("number of generics changed")
+        golden = golden_model()
+        outs = []
+        for g, it in zip(gens, case["items"]):
+            if any(isinstance(op, RescaleOp) for op in g.body.block.ops):
+                outs.append({"unchanged": True})
+                continue
+            view = BlockView(g.body.block)
+            p, (wi, wr), ch = it["params"], it["args"], it["ch"]
+            vals = []
+            for x in it["xs"]:
+                r = interpret(view, [[wi, x & ((1 << wi) - 1)], [wr, 0]])
+                e = r[0] if r is not None and len(r) == 1 else None
+                gq = None
+                if ch < len(p["shift"]) and ch < len(p["multiplier"]) and 1 <= p["shift"][ch] <= 63:
+                    gv = golden(np.array([x], dtype=np.int64), p["input_zp"], p["output_zp"], p["shift"][ch], p["max_int"],
+                                p["min_int"], int(p["double_round"]), p["multiplier"][ch])
+                    gq = int(gv[0]) & 0xFFFFFFFF
+                vals.append([e, gq])
+            outs.append({"body": view.body_json(), "vals": vals})
+        return {"items": outs}
 
     def impl_rescale(self, case):
         import numpy as np
@@ -1349,12 +1403,20 @@ class C18(Prop):
         if k == "fused":
             return [{"fn": "c18.lower", "args": {"mbody": impl_out["mbody"], "fixed": FIXED_LOWER}},
                     {"fn": "c18.meval", "args": {"mbody": impl_out["mbody"], "ins": impl_out["ins"]}}]
+        if k == "multi_rescale":
+            reqs = []
+            for it in case["items"]:
+                reqs.append({"fn": "c18.rescale_body", "args": {"fixed": FIXED_RESCALE, "params": it["params"], "args": it["args"]}})
+                reqs.append({"fn": "c18.rescale_eval", "args": {"fixed": FIXED_RESCALE, "params": it["params"], "ch": it["ch"],
+                                                                "wi": it["args"][0], "wr": it["args"][1], "xs": it["xs"]}})
+            return reqs
         if k == "multi":
             reqs = []
             t = acc_table()
             accs = [t[a] for a in case["accs"] if t.get(a) is not None]
             for body, item in zip(impl_out["bodies"], case["items"]):
-                reqs.append({"fn": "c18.recognize_pipeline", "args": {"body": body, "accs": accs, "dynamic": item["form"] == "dynamic"}})
+                reqs.append({"fn": "c18.recognize_pipeline", "args": {"body": body, "accs": accs, "dynamic": item["form"] == "dynamic",
+                                                                      "fixed_dispatch": FIXED_DISPATCH}})
             return reqs
         if k == "rescale":
             return [{"fn": "c18.rescale_body", "args": {"fixed": FIXED_RESCALE, "params": case["params"], "args": case["args"]}},
@@ -1382,7 +1444,7 @@ class C18(Prop):
         accs = [t[a] for a in case["accs"] if t.get(a) is not None]
         kb = case["kbody"]
         return [{"fn": "c18.dispatch", "args": {"accs": accs, "kernel": kb["kernel"], "tys": kb["opTypes"] + [kb["resWidth"]],
-                                                "dynamic": case["dynamic"]}}]
+                                                "dynamic": case["dynamic"], "fixed": FIXED_DISPATCH}}]
 
     def model(self, case, answers, impl_out):
         for a in answers:
@@ -1420,6 +1482,16 @@ class C18(Prop):
                 vals.append([[ew, e] if e is not None else None, s])
             # the golden model is only called for shifts 1..63 and an existing channel: the model's spec is `none` exactly there
             return {"body": b, "vals": vals}
+        if k == "multi_rescale":
+            outs = []
+            for j, it in enumerate(case["items"]):
+                b = answers[2 * j]["ok"]
+                if isinstance(b, dict) and "unchanged" in b:
+                    outs.append({"unchanged": True})
+                    continue
+                ew = it["args"][1] if FIXED_RESCALE else 8
+                outs.append({"body": b, "vals": [[[ew, e] if e is not None else None, sp] for (e, sp) in answers[2 * j + 1]["ok"]]})
+            return {"items": outs}
         if k == "multi":
             rs = [a["ok"] for a in answers]
             return {"bodies": impl_out["bodies"], "kforms": [r["kform"] for r in rs], "unrecognised_unchanged": [True] * len(rs),
@@ -1502,6 +1574,12 @@ class C18(Prop):
                     return [{"what": f"body {mb} computes {b} on inputs {i}; after convert-kernel-to-linalg it is "
                                      f"{impl_out['out']} and computes {a}", "finding": "DC18a" if single else None}]
             return []
+        if k == "multi_rescale":
+            out = []
+            for j, (it, o) in enumerate(zip(case["items"], impl_out["items"])):
+                for v in self.oracle(it, o):
+                    out.append(dict(v, what=f"rescale generic #{j} of a module with {len(case['items'])}: " + v["what"]))
+            return out
         if k == "multi":
             out = []
             for j, body in enumerate(impl_out["bodies"]):
